@@ -79,6 +79,15 @@ func genC07Kind(rc *RunCtx, kind int) (*C1, bool) {
 			}
 		}
 	}
+	if sc.Kind != KSerial && !t.Has("cutmode") && t.Chance(1, 6) {
+		// a connection wrapper (a coalescing or rate-limiting reader) hands over what it has together with the deadline
+		// error when the deadline cuts its read short: bytes first, error second, as the io.Reader contract says
+		for i := range sc.Chunks {
+			if t.Chance(1, 2) {
+				sc.Chunks[i].Err = os.ErrDeadlineExceeded
+			}
+		}
+	}
 	// a timeout must never be legitimate: the whole reply is delivered within half the read timeout
 	if need := 2*totalGap(sc.Chunks) + 50*time.Millisecond; sc.ReadTimeout < need {
 		sc.ReadTimeout = need
@@ -145,6 +154,16 @@ func runC07(rc *RunCtx) {
 			if rc.Scen.Choose(2) == 1 {
 				pre.Fault = FCancelAt
 				pre.CancelAt = time.Duration(1+rc.Scen.Choose(3000)) * time.Microsecond
+			}
+			if pre.Fault == FStall && len(pre.Reply) < len(pre.Full) && rc.Scen.Chance(1, 2) {
+				// the rest of the abandoned reply arrives after the call has given up; the application waits, and in half
+				// of these runs connects again (with or without Close) before it asks again - a new connection knows
+				// nothing of the old one's late bytes
+				pre.LateRest = pre.Full[len(pre.Reply):]
+				sc.IdleBefore = pre.ReadTimeout + time.Duration(60+rc.Scen.Choose(200))*time.Millisecond
+				if sc.Kind != KSerial {
+					sc.Reconnect = rc.Scen.Choose(3)
+				}
 			}
 			pre.Then = sc
 			out := RunC1(rc, pre)
